@@ -1354,6 +1354,10 @@ export class TupleRuntype extends BaseRuntype {
     let idx = 0;
     let acc = [];
     for (const prefixItem of this.prefix) {
+      // a trailing slot that accepts undefined may be missing from the input: it stays missing
+      if (idx >= input.length) {
+        break;
+      }
       acc.push(prefixItem.parseAfterValidation(ctx, input[idx]));
       idx++;
     }
